@@ -40,7 +40,7 @@ META = {
     'components_real': ['S3TapeCassette._get_id_prefixes / iter_recording_ids', 'S3BasicFacade.iter_keys last-modified predicate'],
     'components_stub': ['S3 bucket', 'clock'],
     'budgets': {'quick': {'seconds': 20}, 'thorough': {'seconds': 240}},
-    'required_probes': {'quick': ['grid_window'], 'thorough': ['grid_window', 'random_window', 'end_defaults_to_now', 'window_crosses_midnight_end_earlier_in_day', 'long_lived_cassette_lookup']},
+    'required_probes': {'quick': ['grid_window'], 'thorough': ['grid_window', 'random_window', 'end_defaults_to_now', 'window_crosses_midnight_end_earlier_in_day', 'long_lived_cassette_lookup', 'random_order_window']},
 }
 
 
@@ -59,10 +59,13 @@ def populate(clock, store, instants, tape=None):
     return out
 
 
-def check_window(run, cas, recs, start, end, now, label):
+def check_window(run, cas, recs, start, end, now, label, random_results=False):
     exp = set(rid for t, rid in recs if start <= t and t <= (end if end is not None else now.replace(microsecond=0)))
     try:
-        got = list(cas.iter_recording_ids('OpA', start_date=start, end_date=end))
+        if random_results:
+            run.probe('random_order_window')
+            label += ' (random order)'
+        got = list(cas.iter_recording_ids('OpA', start_date=start, end_date=end, random_results=random_results))
     except Exception as ex:
         run.violate('window_exact', 'lookup-raised:%s' % type(ex).__name__, '%s window %s .. %s raised %r' % (label, start, end, ex))
         return
@@ -97,9 +100,9 @@ def table_start(tape, clock, tier):
         start = g[i]
         now = g[-1] + datetime.timedelta(hours=5)
         clock.set(now)
-        for end in g[i:]:
+        for n_, end in enumerate(g[i:]):
             run.subruns += 1
-            check_window(run, cas, recs, start, end, now, 'grid')
+            check_window(run, cas, recs, start, end, now, 'grid', random_results=(n_ + i) % 5 == 4)
         run.probe('grid_window', run.subruns)
         # end defaults to now, at several positions of the clock: the bucket then holds what was saved up to that instant
         for k in sorted(set([i, (i + len(g)) // 2, len(g) - 1])):
@@ -135,14 +138,14 @@ def random_windows(tape, clock):
                 now = max(instants[-1], a) + datetime.timedelta(seconds=tape.draw(span))
                 clock.set(now)
                 run.probe('end_defaults_to_now')
-                check_window(run, cas, recs, a, None, now, 'random/end=now')
+                check_window(run, cas, recs, a, None, now, 'random/end=now', random_results=tape.draw(3) == 2)
             else:
                 b = a + datetime.timedelta(seconds=tape.draw(span // 60) * 60 + tape.choice([0, 0, 1])) if tape.draw(3) else tape.choice(instants)
                 if b < a:
                     a, b = b, a
                 now = T0 + datetime.timedelta(days=5)
                 clock.set(now)
-                check_window(run, cas, recs, a, b, now, 'random')
+                check_window(run, cas, recs, a, b, now, 'random', random_results=tape.draw(3) == 2)
             run.subruns += 1
             run.probe('random_window')
         run.say('%d random windows over recordings at %s' % (run.subruns, [str(t) for t in instants][:6]))
@@ -177,7 +180,7 @@ def long_lived(tape, clock):
                 if start <= now:
                     run.subruns += 1
                     run.probe('long_lived_cassette_lookup')
-                    check_window(run, reader, recs, start, None, now, 'long-lived cassette, step %d' % step)
+                    check_window(run, reader, recs, start, None, now, 'long-lived cassette, step %d' % step, random_results=tape.draw(4) == 3)
         run.say('long-lived reader, %d lookups, recordings at %s' % (run.subruns, [str(t) for t, _ in recs][:8]))
         run.ev('long', [str(t) for t, _ in recs], [str(x) for x in starts], [v.signature for v in run.violations])
     finally:
